@@ -853,7 +853,7 @@ class Curve(SplineGeometry):
         :setter: Sets sample size
         :type: int
         """
-        ss = math.floor((1.0 / self.delta) + 0.5)
+        ss = max(2, math.floor((1.0 / self.delta) + 0.5))
         return int(ss)
 
     @sample_size.setter
@@ -1494,7 +1494,7 @@ class Surface(SplineGeometry):
         :setter: Sets sample size for the u-direction
         :type: int
         """
-        ss = math.floor((1.0 / self.delta_u) + 0.5)
+        ss = max(2, math.floor((1.0 / self.delta_u) + 0.5))
         return int(ss)
 
     @sample_size_u.setter
@@ -1526,7 +1526,7 @@ class Surface(SplineGeometry):
         :setter: Sets sample size for the v-direction
         :type: int
         """
-        ss = math.floor((1.0 / self.delta_v) + 0.5)
+        ss = max(2, math.floor((1.0 / self.delta_v) + 0.5))
         return int(ss)
 
     @sample_size_v.setter
@@ -1564,8 +1564,8 @@ class Surface(SplineGeometry):
         :setter: Sets sample size for both u- and v-directions
         :type: int
         """
-        sample_size_u = math.floor((1.0 / self.delta_u) + 0.5)
-        sample_size_v = math.floor((1.0 / self.delta_v) + 0.5)
+        sample_size_u = max(2, math.floor((1.0 / self.delta_u) + 0.5))
+        sample_size_v = max(2, math.floor((1.0 / self.delta_v) + 0.5))
         return int(sample_size_u), int(sample_size_v)
 
     @sample_size.setter
@@ -2544,7 +2544,7 @@ class Volume(SplineGeometry):
         :setter: Sets sample size for the u-direction
         :type: int
         """
-        ss = math.floor((1.0 / self.delta_u) + 0.5)
+        ss = max(2, math.floor((1.0 / self.delta_u) + 0.5))
         return int(ss)
 
     @sample_size_u.setter
@@ -2576,7 +2576,7 @@ class Volume(SplineGeometry):
         :setter: Sets sample size for the v-direction
         :type: int
         """
-        ss = math.floor((1.0 / self.delta_v) + 0.5)
+        ss = max(2, math.floor((1.0 / self.delta_v) + 0.5))
         return int(ss)
 
     @sample_size_v.setter
@@ -2608,7 +2608,7 @@ class Volume(SplineGeometry):
         :setter: Sets sample size for the w-direction
         :type: int
         """
-        ss = math.floor((1.0 / self.delta_w) + 0.5)
+        ss = max(2, math.floor((1.0 / self.delta_w) + 0.5))
         return int(ss)
 
     @sample_size_w.setter
@@ -2646,9 +2646,9 @@ class Volume(SplineGeometry):
         :setter: Sets sample size value for both u-, v- and w-directions
         :type: int
         """
-        sample_size_u = math.floor((1.0 / self.delta_u) + 0.5)
-        sample_size_v = math.floor((1.0 / self.delta_v) + 0.5)
-        sample_size_w = math.floor((1.0 / self.delta_w) + 0.5)
+        sample_size_u = max(2, math.floor((1.0 / self.delta_u) + 0.5))
+        sample_size_v = max(2, math.floor((1.0 / self.delta_v) + 0.5))
+        sample_size_w = max(2, math.floor((1.0 / self.delta_w) + 0.5))
         return int(sample_size_u), int(sample_size_v), int(sample_size_w)
 
     @sample_size.setter
